@@ -271,7 +271,7 @@ def r3_seeding(ctx, chk, rule="C14.3"):
             continue
         if l.source != slist or not l.whole or l.has_break or l.cont != FALSE or l.filter_true() is False if hasattr(l, "filter_true") else False:
             pass
-        if l.source != slist or not l.whole or l.has_break or l.has_return or l.cont != FALSE:
+        if l.source != slist or not l.whole or l.has_break or l.has_return:
             chk.violation(rule, f.where(l.node), "the seeding loop covers `%s`, not the whole state list" % show(l.source), expected="for state in self.state_list",
                           found=norm_stmt(l.node), construct="seeding coverage")
         elif e[0] != TRUE or e[2] != st or e[4] != ("attr", st, REACH):
